@@ -71,6 +71,16 @@ func genCkCases(tier string, r *hx.Rand) []*hx.Case {
 			if rr.Chance(1, 4) {
 				o.More = []int64{cur + int64(1+rr.Intn(12))*unit}
 			}
+			if rr.Chance(1, 12) {
+				o.N = 1 // the handler fails if this event completes a batch
+			}
+			emit(o)
+		}
+		advOp := func(s int) {
+			o := opJ{Op: "adv", Sr: s, T: wm[s]}
+			if rr.Chance(1, 4) {
+				o.N = 1 + rr.Intn(2) // the handler fails on the N-th call made while this watermark is handled
+			}
 			emit(o)
 		}
 		adv := func(all bool) {
@@ -80,14 +90,14 @@ func genCkCases(tier string, r *hx.Rand) []*hx.Case {
 					if cur > wm[s] {
 						wm[s] = cur
 					}
-					emit(opJ{Op: "adv", Sr: s, T: wm[s]})
+					advOp(s)
 				}
 			} else {
 				s := rr.Intn(nsr)
 				if cur > wm[s] {
 					wm[s] = cur
 				}
-				emit(opJ{Op: "adv", Sr: s, T: wm[s]})
+				advOp(s)
 			}
 		}
 		ckpts := 0
@@ -154,10 +164,13 @@ type ckPayload struct {
 }
 
 type ckHandler struct {
-	mu    sync.Mutex
-	seq   uint64
-	calls []hcallJ
-	seen  map[uint64]bool // marks found in the key states of the requests since the last reset
+	mu       sync.Mutex
+	failAt   int  // fail the failAt-th call since the engine armed it (0: never)
+	callsArm int  // calls since armed
+	failed   bool // the injected failure happened
+	seq      uint64
+	calls    []hcallJ
+	seen     map[uint64]bool // marks found in the key states of the requests since the last reset
 }
 
 func (h *ckHandler) KeyEventBatch(ctx context.Context, events [][]byte) ([][]*handlerpb.KeyedEvent, error) {
@@ -173,6 +186,13 @@ func mark(key []byte, seq uint64) *handlerpb.StateMutationNamespace {
 func (h *ckHandler) ProcessEventBatch(ctx context.Context, req *handlerpb.ProcessEventBatchRequest) (*handlerpb.ProcessEventBatchResponse, error) {
 	h.mu.Lock()
 	defer h.mu.Unlock()
+	if h.failAt > 0 {
+		h.callsArm++
+		if h.callsArm == h.failAt {
+			h.failed = true
+			return nil, fmt.Errorf("injected handler failure")
+		}
+	}
 	for _, ks := range req.KeyStates {
 		for _, ns := range ks.StateEntryNamespaces {
 			if ns.Namespace != "seen" {
@@ -355,6 +375,76 @@ func (eng) executeCk(c *hx.Case) (*hx.Result, error) {
 	var marks []uint64
 	nCrash, nFiredIntoBatch := 0, 0
 	tags := map[string]bool{fmt.Sprintf("batch-%d", batch): true}
+	// crash: the incarnation stops, a new Operator (event batch size mNew) is deployed from the checkpoint the job was told
+	// about last; every key is probed to learn which events are part of that checkpoint
+	crash := func(i int, mNew int) error {
+		if err := halt(inc); err != nil {
+			return fmt.Errorf("op %d: %v", i, err)
+		}
+		h.mu.Lock()
+		pre = append([]hcallJ{}, h.calls...)
+		h.seen = map[uint64]bool{}
+		h.mu.Unlock()
+		m := mNew
+		if m < 1 {
+			m = 1
+		}
+		if inc, err = start(m, job.OperatorCheckpoint); err != nil {
+			return fmt.Errorf("op %d: redeploy: %v", i, err)
+		}
+		keep = append(keep, inc)
+		lastWm = map[string]int64{}
+		// probe every key, flush with a checkpoint: the key states of these requests are the restored state
+		ks := make([]string, 0, len(keysUsed))
+		for k := range keysUsed {
+			ks = append(ks, k)
+		}
+		sort.Strings(ks)
+		for _, k := range ks {
+			if err := keyed(inc, keysUsed[k], ckPayload{Probe: true}); err != nil {
+				return fmt.Errorf("op %d: probe: %v", i, err)
+			}
+		}
+		if err := barrier(inc); err != nil {
+			return fmt.Errorf("op %d: %v", i, err)
+		}
+		h.mu.Lock()
+		marks = marks[:0]
+		for s := range h.seen {
+			marks = append(marks, s)
+		}
+		sort.Slice(marks, func(a, b int) bool { return marks[a] < marks[b] })
+		h.mu.Unlock()
+		nCrash++
+		tags[fmt.Sprintf("restored-batch-%d", m)] = true
+		return nil
+	}
+	// the first checkpoint (of the empty state) exists before anything can fail
+	if err := barrier(inc); err != nil {
+		return nil, err
+	}
+	// an operation during which the handler is told to fail its n-th call: the current code reports the failure to the
+	// sender (HandleEvent returns the error), the worker fails and the job restarts it from the last checkpoint
+	guarded := func(i, n int, f func() error) error {
+		h.mu.Lock()
+		h.failAt, h.callsArm, h.failed = n, 0, false
+		h.mu.Unlock()
+		err := f()
+		h.mu.Lock()
+		failed := h.failed
+		h.failAt = 0
+		h.mu.Unlock()
+		switch {
+		case err != nil && failed:
+			tags["handler-failure-reported"] = true
+			return crash(i, 1+i%3)
+		case err != nil:
+			return fmt.Errorf("op %d: %v", i, err)
+		case failed:
+			tags["handler-failure-not-reported"] = true // the check decides what that means for the timers
+		}
+		return nil
+	}
 	for i, raw := range c.Ops {
 		var o opJ
 		if err := json.Unmarshal(raw, &o); err != nil {
@@ -363,17 +453,22 @@ func (eng) executeCk(c *hx.Case) (*hx.Result, error) {
 		switch o.Op {
 		case "set":
 			keysUsed[string(o.Key)] = o.Key
-			if err := keyed(inc, o.Key, ckPayload{Ts: append([]int64{o.T}, o.More...)}); err != nil {
-				return nil, fmt.Errorf("op %d: %v", i, err)
+			if err := guarded(i, o.N, func() error { return keyed(inc, o.Key, ckPayload{Ts: append([]int64{o.T}, o.More...)}) }); err != nil {
+				return nil, err
 			}
 		case "adv":
 			if o.Sr < 0 || o.Sr >= len(srNames) {
 				continue
 			}
-			if err := send(inc, srNames[o.Sr], &workerpb.Event{Event: &workerpb.Event_Watermark{Watermark: &workerpb.Watermark{Timestamp: timestamppb.New(time.Unix(0, o.T))}}}); err != nil {
-				return nil, fmt.Errorf("op %d: %v", i, err)
+			crashesBefore := nCrash
+			if err := guarded(i, o.N, func() error {
+				return send(inc, srNames[o.Sr], &workerpb.Event{Event: &workerpb.Event_Watermark{Watermark: &workerpb.Watermark{Timestamp: timestamppb.New(time.Unix(0, o.T))}}})
+			}); err != nil {
+				return nil, err
 			}
-			lastWm[srNames[o.Sr]] = o.T
+			if nCrash == crashesBefore {
+				lastWm[srNames[o.Sr]] = o.T
+			}
 		case "barrier":
 			h.mu.Lock()
 			before := len(h.calls)
@@ -392,48 +487,9 @@ func (eng) executeCk(c *hx.Case) (*hx.Result, error) {
 			}
 			h.mu.Unlock()
 		case "crash":
-			if job.OperatorCheckpoint == nil {
-				continue // nothing to restore from
+			if err := crash(i, o.Batch); err != nil {
+				return nil, err
 			}
-			if err := halt(inc); err != nil {
-				return nil, fmt.Errorf("op %d: %v", i, err)
-			}
-			h.mu.Lock()
-			pre = append([]hcallJ{}, h.calls...)
-			h.seen = map[uint64]bool{}
-			h.mu.Unlock()
-			m := o.Batch
-			if m < 1 {
-				m = 1
-			}
-			if inc, err = start(m, job.OperatorCheckpoint); err != nil {
-				return nil, fmt.Errorf("op %d: redeploy: %v", i, err)
-			}
-			keep = append(keep, inc)
-			lastWm = map[string]int64{}
-			// probe every key, flush with a checkpoint: the key states of these requests are the restored state
-			ks := make([]string, 0, len(keysUsed))
-			for k := range keysUsed {
-				ks = append(ks, k)
-			}
-			sort.Strings(ks)
-			for _, k := range ks {
-				if err := keyed(inc, keysUsed[k], ckPayload{Probe: true}); err != nil {
-					return nil, fmt.Errorf("op %d: probe: %v", i, err)
-				}
-			}
-			if err := barrier(inc); err != nil {
-				return nil, fmt.Errorf("op %d: %v", i, err)
-			}
-			h.mu.Lock()
-			marks = marks[:0]
-			for s := range h.seen {
-				marks = append(marks, s)
-			}
-			sort.Slice(marks, func(a, b int) bool { return marks[a] < marks[b] })
-			h.mu.Unlock()
-			nCrash++
-			tags[fmt.Sprintf("restored-batch-%d", m)] = true
 		default:
 			return nil, fmt.Errorf("op %d: op %q is not available with checkpoints", i, o.Op)
 		}
